@@ -49,10 +49,27 @@ hook = st.fixed_dictionaries({
 })
 waiter = st.fixed_dictionaries({"mode": mode_i, "event": st.sampled_from(["starting", "stopping"]),
                                 "delay": st.sampled_from([0, 5, 20, 60])})
+# scenario: the mode stops while one of its devices has a timer of its own pending (timed pause of the mode's timer,
+# hit window / timeout of its counter): nothing of it may fire or stay registered after the stop
+pending_stop = st.tuples(st.sampled_from(["pause_a", "hit_a", "arm_a"]), st.sampled_from([0, 10, 30]),
+                         st.sampled_from(["call", "event"])).map(lambda t: ["pending_stop"] + list(t))
+
+
+def _expand(ops):
+    out = []
+    for o in ops:
+        if o[0] == "pending_stop":
+            out += [["start", 0, "call", None], ["advance", 50], ["activity", o[1]], ["advance", o[2]],
+                    ["stop", 0, o[3], None], ["advance", 100], ["advance", 300]]
+        else:
+            out.append(o)
+    return out
+
+
 case_strategy = st.fixed_dictionaries({
     "hooks": st.lists(hook, min_size=0, max_size=3),
     "waiters": st.lists(waiter, max_size=3),
-    "ops": st.lists(op, min_size=3, max_size=40),
+    "ops": st.lists(st.one_of(op, op, op, op, op, op, op, op, op, op, op, pending_stop), min_size=3, max_size=40).map(_expand),
 })
 
 
